@@ -39,21 +39,43 @@ Fixpoint skel_ok (cur : Z) (fin : version) (secs : list sect) : Prop :=
 Fixpoint end_serial (cur : Z) (secs : list sect) : Z :=
   match secs with [] => cur | c :: r => end_serial (v_serial (c_new c)) r end.
 
+Lemma quiet_sec : forall c z z1, Forall okrec (c_adds c) -> quiet z -> dels z (erase (c_dels c)) = Some z1 ->
+  quiet z1 /\ quiet (zput soakey (v_ttl (c_new c), [v_soa (c_new c)]) z1) /\
+  quiet (adds (zput soakey (v_ttl (c_new c), [v_soa (c_new c)]) z1) (erase (c_adds c))).
+Proof.
+  intros c z z1 OA Hq Hd.
+  assert (Hq1 : quiet z1) by (apply (quiet_dels _ _ _ Hd Hq)).
+  assert (Hq2 : quiet (zput soakey (v_ttl (c_new c), [v_soa (c_new c)]) z1)) by (apply quiet_zput; [exact Hq1|discriminate]).
+  split; [exact Hq1|]. split; [exact Hq2|]. apply quiet_adds; [apply erase_plain, OA|exact Hq2].
+Qed.
+
+Lemma quiet_apply_secs : forall secs cur fin z z', skel_ok cur fin secs -> apply_secs z secs = Some z' ->
+  quiet z -> quiet z'.
+Proof.
+  induction secs as [|c r IH]; intros cur fin z z' Hch Hap Hq; cbn [apply_secs] in Hap.
+  - inversion Hap; subst. exact Hq.
+  - cbn [skel_ok] in Hch. destruct Hch as (Hser & Hne & Httl & OD & OA & Hrest).
+    destruct (dels z (erase (c_dels c))) as [z1|] eqn:Hd; [|discriminate].
+    destruct (quiet_sec c z z1 OA Hq Hd) as (_ & _ & Hq3).
+    apply (IH _ _ _ _ Hrest Hap Hq3).
+Qed.
+
 Lemma secs_run : forall u secs p tz cur fin e z',
-  skel_ok cur fin secs -> apply_secs tz secs = Some z' ->
+  skel_ok cur fin secs -> apply_secs tz secs = Some z' -> quiet tz ->
   loopn (ist u p tz cur (single (soa_rr fin)) e false) (map single (secs_stream secs)) =
   (ist u p z' (end_serial cur secs) (single (soa_rr fin)) (match secs with [] => e | _ => false end) false, None).
 Proof.
-  intros u secs. induction secs as [|c r IH]; intros p tz cur fin e z' Hch Hap.
+  intros u secs. induction secs as [|c r IH]; intros p tz cur fin e z' Hch Hap Hq.
   - cbn in *. inversion Hap; subst. reflexivity.
   - cbn [skel_ok] in Hch. destruct Hch as (Hser & Hne & Httl & OD & OA & Hrest).
     cbn [apply_secs] in Hap. destruct (dels tz (erase (c_dels c))) as [z1|] eqn:Hd; [|discriminate].
+    destruct (quiet_sec c tz z1 OA Hq Hd) as (Hq1 & Hq2 & Hq3).
     cbn [secs_stream map loopn end_serial]. rewrite <- Hser. rewrite step_del_start by exact Hne.
     rewrite map_app, loopn_app.
-    rewrite (loopn_erase_dels (c_dels c) u p tz z1 _ _ OD Hd).
-    cbn [map loopn]. rewrite step_add_start by exact Httl.
-    rewrite map_app, loopn_app, (loopn_erase_adds (c_adds c) u p _ _ _ OA).
-    rewrite (IH p _ (v_serial (c_new c)) fin false z' Hrest Hap).
+    rewrite (loopn_erase_dels (c_dels c) u p tz z1 _ _ OD Hq Hd).
+    cbn [map loopn]. rewrite step_add_start by assumption.
+    rewrite map_app, loopn_app, (loopn_erase_adds (c_adds c) u p _ _ _ OA Hq2).
+    rewrite (IH p _ (v_serial (c_new c)) fin false z' Hrest Hap Hq3).
     destruct r; reflexivity.
 Qed.
 
@@ -109,16 +131,16 @@ Qed.
 Theorem ixfr_sections_applied : forall fin secs z0 z' ser ws,
   secs <> [] -> skel_ok ser fin secs -> end_serial ser secs = v_serial fin -> ttl_ok (v_ttl fin) ->
   v_serial fin <> ser -> serial_lt (v_serial fin) ser = false ->
-  apply_secs z0 secs = Some z' ->
+  quiet z0 -> apply_secs z0 secs = Some z' ->
   chunking tIXFR (soa_rr fin :: secs_stream secs ++ [soa_rr fin]) ws ->
   exists n, inbound_xfr z0 tIXFR (Some ser) false ws = (Done (zput soakey (v_ttl fin, [v_soa fin]) z'), n).
 Proof.
-  intros fin secs z0 z' ser ws Hne Hsk Hend Httl Hs Hlt Hap Hch.
+  intros fin secs z0 z' ser ws Hne Hsk Hend Httl Hs Hlt Hq0 Hap Hch.
   apply chunking_first in Hch. destruct Hch as (w & ws' & a & -> & Hr & Hw & Hws & Hcat).
-  pose proof (secs_run false secs z0 z0 ser fin true z' Hsk Hap) as Hl.
+  pose proof (secs_run false secs z0 z0 ser fin true z' Hsk Hap Hq0) as Hl.
   assert (E : (match secs with [] => true | _ :: _ => false end) = false) by (destruct secs; [congruence|reflexivity]).
   rewrite E, Hend in Hl.
-  pose proof (step_final false z0 z' fin Httl) as Hf.
+  pose proof (step_final false z0 z' fin Httl (quiet_apply_secs _ _ _ _ _ Hsk Hap Hq0)) as Hf.
   unfold inbound_xfr, xfr_run. rewrite init_ixfr. cbn [Z.eqb tIXFR Pos.eqb]. rewrite drive_cons by solve_req.
   rewrite (first_message_ixfr z0 ser false w (soa_rr fin) a Hw Hr) by (split; reflexivity).
   cbv zeta. change (r_data (soa_rr fin) mod two32) with (v_serial fin).
@@ -135,11 +157,11 @@ Qed.
 Theorem ixfr_sections_rejected : forall fin secs tail z0 ser ws,
   skel_ok ser fin secs ->
   v_serial fin <> ser -> serial_lt (v_serial fin) ser = false ->
-  apply_secs z0 secs = None ->
+  quiet z0 -> apply_secs z0 secs = None ->
   chunking tIXFR (soa_rr fin :: secs_stream secs ++ tail) ws ->
   exists n, inbound_xfr z0 tIXFR (Some ser) false ws = (Error eDeleteNotExact z0, n).
 Proof.
-  intros fin secs tail z0 ser ws Hsk Hs Hlt Hap Hch.
+  intros fin secs tail z0 ser ws Hsk Hs Hlt Hq0 Hap Hch.
   destruct (apply_secs_none_split secs z0 Hap) as (pre & c & post & z1 & -> & Hpre & Hnone).
   destruct (skel_ok_app pre (c :: post) ser fin Hsk) as [Hskp Hskc].
   cbn [skel_ok] in Hskc. destruct Hskc as (Hser & Hne & _ & OD & _ & _).
@@ -151,17 +173,19 @@ Proof.
   apply Z.eqb_neq in Hs. rewrite Hs, Hlt. cbn [andb]. rewrite after_tcp by reflexivity.
   assert (Hrun : running (ist false z0 z0 ser (single (soa_rr fin)) true false)).
   { repeat split; try reflexivity; discriminate. }
-  pose proof (secs_run false pre z0 z0 ser fin true z1 Hskp Hpre) as Hl.
+  pose proof (secs_run false pre z0 z0 ser fin true z1 Hskp Hpre Hq0) as Hl.
+  assert (Hq1 : quiet z1) by (apply (quiet_apply_secs _ _ _ _ _ Hskp Hpre Hq0)).
   set (e1 := match pre with [] => true | _ :: _ => false end) in *.
   assert (OD1 : Forall okrec D1) by (rewrite HD in OD; apply Forall_app in OD; tauto).
   assert (Hl2 : loopn (ist false z0 z0 ser (single (soa_rr fin)) true false)
                   (map single (secs_stream pre ++ soa_rr (c_old c) :: D1)) =
                 (ist false z0 z2 (end_serial ser pre) (single (soa_rr fin)) false true, None)).
   { rewrite map_app, loopn_app, Hl. cbn [map loopn]. rewrite <- Hser. rewrite step_del_start by exact Hne.
-    rewrite (loopn_erase_dels D1 false z0 z1 z2 _ _ OD1 Hd1). reflexivity. }
+    rewrite (loopn_erase_dels D1 false z0 z1 z2 _ _ OD1 Hq1 Hd1). reflexivity. }
+  assert (Hq2 : quiet z2) by (apply (quiet_dels _ _ _ Hd1 Hq1)).
   assert (Hbad : forall l, step l (ist false z0 z2 (end_serial ser pre) (single (soa_rr fin)) false true) (single x) =
                            (ist false z0 z2 (end_serial ser pre) (single (soa_rr fin)) false true, Some eDeleteNotExact)).
-  { intros l. unfold ist. rewrite step_plain_del by exact Hx. rewrite Hfail. reflexivity. }
+  { intros l. unfold ist. rewrite step_plain_del by assumption. rewrite Hfail. reflexivity. }
   assert (Hcat2 : exists rest, a ++ concat (map w_records ws') = (secs_stream pre ++ soa_rr (c_old c) :: D1) ++ x :: rest).
   { rewrite Hcat, secs_stream_app. cbn [secs_stream]. rewrite HD.
     eexists. rewrite <- !app_assoc. cbn [app]. rewrite <- !app_assoc. cbn [app]. reflexivity. }
@@ -213,7 +237,7 @@ Definition set_adds (c : sect) (A : list rr) : sect := mkSect (c_old c) (c_dels 
 Theorem ixfr_altered_addition : forall fin pre c A1 a a' A2 z0 z1 z2 ser ws1 ws2,
   c_adds c = A1 ++ a :: A2 -> plain a -> plain a' ->
   skel_ok ser fin (pre ++ [c]) -> end_serial ser (pre ++ [c]) = v_serial fin -> ttl_ok (v_ttl fin) ->
-  v_serial fin <> ser -> serial_lt (v_serial fin) ser = false ->
+  v_serial fin <> ser -> serial_lt (v_serial fin) ser = false -> quiet z0 ->
   apply_secs z0 (pre ++ [c]) = Some z1 ->
   apply_secs z0 (pre ++ [set_adds c (A1 ++ a' :: A2)]) = Some z2 ->
   chunking tIXFR (soa_rr fin :: secs_stream (pre ++ [c]) ++ [soa_rr fin]) ws1 ->
@@ -223,7 +247,7 @@ Theorem ixfr_altered_addition : forall fin pre c A1 a a' A2 z0 z1 z2 ser ws1 ws2
     inbound_xfr z0 tIXFR (Some ser) false ws2 = (Done zf2, n2) /\
     forall k, rkey a <> k -> rkey a' <> k -> look zf2 k = look zf1 k.
 Proof.
-  intros fin pre c A1 a a' A2 z0 z1 z2 ser ws1 ws2 HA Hpa Hpa' Hsk Hend Httl Hs Hlt Hap1 Hap2 Hc1 Hc2.
+  intros fin pre c A1 a a' A2 z0 z1 z2 ser ws1 ws2 HA Hpa Hpa' Hsk Hend Httl Hs Hlt Hq0 Hap1 Hap2 Hc1 Hc2.
   assert (Hsk2 : skel_ok ser fin (pre ++ [set_adds c (A1 ++ a' :: A2)])).
   { clear - Hsk HA Hpa'. revert ser Hsk. induction pre as [|p pre IH]; intros ser Hsk; cbn [app skel_ok] in *.
     - destruct Hsk as (H1 & H2 & H3 & H4 & H5 & H6).
@@ -237,8 +261,8 @@ Proof.
   { rewrite <- Hend. clear. revert ser. induction pre as [|p pre IH]; intros ser; cbn [app end_serial]; [reflexivity|apply IH]. }
   assert (N1 : pre ++ [c] <> []) by (destruct pre; discriminate).
   assert (N2 : pre ++ [set_adds c (A1 ++ a' :: A2)] <> []) by (destruct pre; discriminate).
-  destruct (ixfr_sections_applied fin _ z0 z1 ser ws1 N1 Hsk Hend Httl Hs Hlt Hap1 Hc1) as [n1 R1].
-  destruct (ixfr_sections_applied fin _ z0 z2 ser ws2 N2 Hsk2 Hend2 Httl Hs Hlt Hap2 Hc2) as [n2 R2].
+  destruct (ixfr_sections_applied fin _ z0 z1 ser ws1 N1 Hsk Hend Httl Hs Hlt Hq0 Hap1 Hc1) as [n1 R1].
+  destruct (ixfr_sections_applied fin _ z0 z2 ser ws2 N2 Hsk2 Hend2 Httl Hs Hlt Hq0 Hap2 Hc2) as [n2 R2].
   eexists. eexists. exists n1, n2. split; [exact R1|]. split; [exact R2|].
   intros k Hk Hk'. rewrite !look_zput. destruct (key_eqb k soakey); [reflexivity|].
   (* the two denotations differ only in the additions of the last section *)
